@@ -12,6 +12,7 @@ two boundary faces of every axis) is an exact expression in the adjacent cell at
      => weighted HM <= GM <= AM and all lie between the two values for positive data (theorem)
  W5  upwindMean: donor cell by the sign of u; on boundary faces the ghost-side donor is the face average
      (ghost+inner)/2; u == 0 -> plain average
+ W9  a mean does not write the storage of its arguments (else a repeated evaluation returns other values; also C15.Z1)
  W8  totality on zeros: with either adjacent value 0 no denominator vanishes unless an explicit zero guard
      (indicator) has already selected the value 0
 """
@@ -26,7 +27,7 @@ from .. import facts as F
 PROP = 'C11'
 RULES = {'W6': 'two-cell support', 'W1': 'weights sum to one', 'W2': 'weights non-negative', 'WL': 'linearMean weights / linear exactness',
          'WA': 'arithmeticMean weights', 'W3': 'geometric/harmonic use the arithmetic weights', 'W5': 'upwind donor selection',
-         'W8': 'no 0/0 on data containing zeros'}
+         'W8': 'no 0/0 on data containing zeros', 'W9': 'arguments not written'}
 ASSUMPTIONS = ['cell sizes positive (faces increasing)', 'weighted AM-GM-HM inequality and convexity give the between-ness and ordering from W1-W3',
                'np.exp/np.log are treated as exact inverse elementwise functions']
 MEANS = ['linearMean', 'arithmeticMean', 'geometricMean', 'harmonicMean', 'upwindMean']
@@ -55,10 +56,14 @@ def job(args):
     for m in MEANS:
         fi = sm.func('averaging', m)
         units.add('averaging.' + m)
+        w.ctx.events.clear()
         try:
             res[m] = (w.call('averaging', m, phi, u) if m == 'upwindMean' else w.call('averaging', m, phi), fi)
         except AbstractRaise as e:
             ob('W6', f"averaging.{m}[{d}D]", False, f"{cls}: raises {e.exc}: {e.msg}", fi.loc())
+        muts = [e for e in w.ctx.events if e[0] == 'input-mutated']
+        ob('W9', f"averaging.{m}[{d}D]", not muts, f"{cls}: writes into its argument's storage {muts[:2]} (a second evaluation sees other cell values)" if muts
+           else f"{cls}: argument storage not written (the face values are a function of the cell field alone)", fi.loc())
     dimtag = f"{d}D"
     for m, (fv, fi) in res.items():
         loc = fi.loc()
